@@ -1227,8 +1227,9 @@ result_t NumberDataType::parseInput(const string inputStr, unsigned int* parsedV
           }
         } else {
           unsigned long unsignedValue = strtoul(str, &strEnd, 0);
-          if (errno == ERANGE || unsignedValue >= (1UL << m_bitCount)) {
-            return RESULT_ERR_OUT_OF_RANGE;
+          if (errno == ERANGE || unsignedValue >= (1UL << m_bitCount)
+          || (unsignedValue != 0 && strchr(str, '-') != nullptr && strchr(str, '-') < strEnd)) {
+            return RESULT_ERR_OUT_OF_RANGE;  // value out of range (strtoul() silently negates a value with minus sign)
           }
           value = (unsigned int)unsignedValue;
         }
